@@ -89,6 +89,7 @@ func (o *sessionTracker) RemoteLogin(rul common.RemoteUserLogin) error {
 		}
 	}
 
+	defer common.VerifLockSite(&o.mtx)()
 	o.mtx.Lock()
 	defer o.mtx.Unlock()
 
@@ -175,6 +176,7 @@ func (o *sessionTracker) AuditdEvent(event *aucoalesce.Event) error {
 		"auditSessionID", event.Session)
 	debugLogger.Debugln("new audit event")
 
+	defer common.VerifLockSite(&o.mtx)()
 	o.mtx.Lock()
 	defer o.mtx.Unlock()
 
@@ -321,6 +323,7 @@ func (o *sessionTracker) DeleteUsersWithoutLoginsBefore(t time.Time) {
 			"before", t.String())
 	}
 
+	defer common.VerifLockSite(&o.mtx)()
 	o.mtx.Lock()
 	defer o.mtx.Unlock()
 
@@ -353,6 +356,7 @@ func (o *sessionTracker) DeleteRemoteUserLoginsBefore(t time.Time) {
 			"before", t.String())
 	}
 
+	defer common.VerifLockSite(&o.mtx)()
 	o.mtx.Lock()
 	defer o.mtx.Unlock()
 
